@@ -6,7 +6,7 @@ import gens
 
 MODE = 'html'
 FR = gens.HTML_ALPHA + ['<a>', '</a>', '<b c="d>e">', '</b>', '<br>', '<i/>', '<img x=y>', '<!--', '-->', '<![CDATA[', ']]>', '<?', '?>', '<script>',
-                        '</script>', '<script type="text/x">', '<style>', '</style>', '\\', '{', '}', '(', ')', '*x', '#y', ' e=f', "='g'", '<p ', 'é', 'x:y']
+                        '</script>', '<script type="text/x">', '<style>', '</style>', '\\', '{', '}', '(', ')', '*x', '#y', ' e=f', "='g'", '<p ', 'é', 'x:y', '</br>', '</img>', '</hr>', '<script/>', '<style/>', '<script src="a.js"/>', '<style type="x"/>', '<br/>', '</script', '<input>']
 VOID = ['br', 'img', 'input', 'hr', 'meta', 'link']
 PAIRED = ['div', 'p', 'span', 'a', 'ul', 'li', 'b', 'x-y', 'ns:t', 'section', 'h1', 'em', 'table', 'A', 'Br']
 
@@ -52,6 +52,11 @@ def gen_doc(rnd, xml, budget=14):
 
     def element(depth):
         k = rnd.random()
+        if k < .04 and xml:
+            # self-closed special element: its "body" must not be skipped
+            name = rnd.choice(['script', 'style'])
+            rec = Rec(name); s = pos[0]; emit('<' + name); attrs(rec); emit('/>'); rec.selfc = True; rec.open = (s, pos[0])
+            return rec
         if k < .12:
             name = rnd.choice(['script', 'style'])
             rec = Rec(name); s = pos[0]; emit('<' + name); attrs(rec); emit('>'); rec.open = (s, pos[0])
